@@ -292,7 +292,10 @@ impl<'a> Sieve<'a> {
             .iter()
             .position(|&p| p > pskip)
             .unwrap_or(fbase.len());
-        let len = offs.len();
+        // Both cursor arrays start from the initial offsets: a missing second root
+        // (OFFSET_NONE) is never rewritten by sieve_block, so it must be present
+        // in the array that becomes `lo_prev` of the second block as well.
+        let lo_prev = offs.clone();
         Sieve {
             offset,
             nblocks,
@@ -300,7 +303,7 @@ impl<'a> Sieve<'a> {
             idxskip,
             fbase,
             lo: offs,
-            lo_prev: vec![0u16; len],
+            lo_prev,
             blk: [0u8; BLOCK_SIZE],
             tables,
             ltables,
